@@ -9,7 +9,7 @@ import ast
 from z3 import *
 from pyvc.core import *
 
-PROPS = ['C02', 'C03', 'C04', 'C05', 'C08', 'C12']
+PROPS = ['C02', 'C03', 'C04', 'C05', 'C08', 'C12', 'C07', 'C11', 'C01', 'C06']
 REPLAY = {'driver': 'wiring'}
 REL = 'taskiq/cli/worker/run.py'
 TRUSTED = ["WorkerArgs.from_cli maps each command-line option to the field of the same meaning (checked natively by replay/wiring.py for the options used here, not deductively)",
@@ -42,6 +42,24 @@ def generate(src):
             else: oblige(s, f"start_listen/receiver option {opt} == args.{field}  [{props}]", to_val(v) == fv, witness={'args.' + field: fv})
             reach(s, f"start_listen/reach@{opt}")
         ex.ev(kws[opt], st, got, {'exc': lambda s, x: oblige(s, f"start_listen/receiver option {opt}: evaluating it raises nothing  [{props}]", BoolVal(False))})
+    # ---------------- the two other places that build a Receiver from options of their own: the programmatic worker and the in-memory broker
+    def handover(rel, qual, want, what):
+        fd2 = src.func(rel, qual)
+        cs = [n for n in ast.walk(fd2) if isinstance(n, ast.Call) and any(k.arg in ('max_async_tasks', 'propagate_exceptions') for k in n.keywords) and any(k.arg == 'broker' for k in n.keywords)]
+        if len(cs) != 1: raise Unsupported(f"{qual}: expected exactly one call that builds the receiver, found {len(cs)}")
+        kw2 = {k.arg: k.value for k in cs[0].keywords if k.arg is not None}
+        params = [a_.arg for a_ in fd2.args.args + fd2.args.kwonlyargs]
+        s0 = State(); s0.env = {p_: fresh(p_) for p_ in params}
+        for opt, (par, props) in want.items():
+            if par not in params: continue          # the entry point does not offer this option
+            if opt not in kw2:
+                oblige(s0, f"{what}/receiver option {opt}: the `{par}` given to {qual.split('.')[0]} is passed on  [{props}]", BoolVal(False)); continue
+            s1 = s0.fork()
+            ex.ev(kw2[opt], s1, lambda s, v, opt=opt, par=par, props=props: (oblige(s, f"{what}/receiver option {opt} == the `{par}` given to {qual.split('.')[0]}  [{props}]", to_val(v) == s0.env[par]), reach(s, f"{what}/reach@{opt}")),
+                  {'exc': lambda s, x: None})
+    handover('taskiq/api/receiver.py', 'run_receiver_task', {'max_async_tasks': ('max_async_tasks', 'C03/C04'), 'max_prefetch': ('max_prefetch', 'C04'), 'propagate_exceptions': ('propagate_exceptions', 'C12'),
+                                                               'validate_params': ('validate_params', 'C08'), 'ack_type': ('ack_time', 'C02')}, 'run_receiver_task')
+    handover('taskiq/brokers/inmemory_broker.py', 'InMemoryBroker.__init__', {'max_async_tasks': ('max_async_tasks', 'C03/C04'), 'propagate_exceptions': ('propagate_exceptions', 'C12'), 'validate_params': ('cast_types', 'C08')}, 'InMemoryBroker')
     # ---------------- Receiver.__init__: the options are stored as given (callback / run_task / prefetcher / runner read them back from self)
     RREL = 'taskiq/receiver/receiver.py'; init = src.func(RREL, 'Receiver.__init__')
     class ExI(Exec):
@@ -62,4 +80,43 @@ def generate(src):
                Implies(params['ack_type'] != Val.none, h.field('ack_time')[self_a] == params['ack_type']) if 'ack_type' in params else BoolVal(False))
         reach(s, "Receiver.__init__/reach@return")
     exi.run(init, sti, i_ret, lambda s, x: None)
+    # ---------------- Receiver._prepare_task: what run_task/parse_params later read from the per-task tables is computed from THIS task's function
+    prep = src.func(RREL, 'Receiver._prepare_task'); pp = [a_.arg for a_ in prep.args.args]
+    if len(pp) != 3: raise Unsupported("Receiver._prepare_task signature: " + ast.unparse(prep.args))
+    sigf = Function('inspect_signature', Val, Val); hintsf = Function('typing_get_type_hints', Val, Val); graphf = Function('DependencyGraph', Val, Val)
+    exp_ = Exec({'inspect.signature': lambda ex_, st_, e, r, a, kw, k, K: k(st_, sigf(to_val(a[0]))), 'get_type_hints': lambda ex_, st_, e, r, a, kw, k, K: k(st_, hintsf(to_val(a[0]))),
+                 'typing.get_type_hints': lambda ex_, st_, e, r, a, kw, k, K: k(st_, hintsf(to_val(a[0]))), 'DependencyGraph': lambda ex_, st_, e, r, a, kw, k, K: k(st_, graphf(to_val(a[0]))),
+                 'self.known_tasks.add': lambda ex_, st_, e, r, a, kw, k, K: (setG(st_, known=to_val(a[0])), k(st_, None))[1], 'logger.*': noop},
+                attr_kinds={'self.task_signatures': 'dict', 'self.task_hints': 'dict', 'self.dependency_graphs': 'dict'})
+    stp = State(); sa = Int('self_a'); nm = fresh('task_name'); hd = fresh('handler'); stp.env = {pp[0]: PyObj(sa), pp[1]: nm, pp[2]: hd}; stp.ghost = {'known': Val.none}
+    tabs = {f: Int('table_' + f) for f in ('task_signatures', 'task_hints', 'dependency_graphs')}
+    for f, a_ in tabs.items(): stp.heap.fld[f] = Store(stp.heap.field(f), sa, Val.ref(a_))
+    stp.pc.append(Distinct(*tabs.values()))
+    def p_ret(s, v):
+        h = s.heap
+        oblige(s, "_prepare_task/post: task_signatures[name] is inspect.signature of the task's own function  [C08]", And(h.dhas[tabs['task_signatures']][nm], h.dval[tabs['task_signatures']][nm] == sigf(hd)))
+        oblige(s, "_prepare_task/post: task_hints[name] is typing.get_type_hints of the task's own function (RESOLVED annotations: string / postponed annotations included)  [C08]",
+               And(h.dhas[tabs['task_hints']][nm], h.dval[tabs['task_hints']][nm] == hintsf(hd)))
+        oblige(s, "_prepare_task/post: dependency_graphs[name] is the dependency graph of the task's own function  [C12/C06]", And(h.dhas[tabs['dependency_graphs']][nm], h.dval[tabs['dependency_graphs']][nm] == graphf(hd)), props=['C12', 'C06', 'C08'])
+        oblige(s, "_prepare_task/post: the task is marked as known  [C08]", s.ghost['known'] == nm)
+        reach(s, "_prepare_task/reach@return")
+    exp_.run(prep, stp, p_ret, lambda s, x: oblige(s, "_prepare_task/raises: nothing of its own  [C08]", BoolVal(False)))
+    # ---------------- the in-memory reference broker / result backend (what `InMemoryBroker` users and the test doubles of applications rely on)
+    IREL = 'taskiq/brokers/inmemory_broker.py'; kick = src.func(IREL, 'InMemoryBroker.kick')
+    cbs = [n for n in ast.walk(kick) if isinstance(n, ast.Call) and ast.unparse(n.func).endswith('receiver.callback')]
+    sk = State()
+    oblige(sk, "InMemoryBroker.kick: hands the message to the receiver exactly once, as the worker loop does (callback(message=message.message), raise_err left False: a failing result backend stays contained)  [C07/C01]",
+           BoolVal(len(cbs) == 1 and {k.arg: ast.unparse(k.value) for k in cbs[0].keywords if not (k.arg == 'raise_err' and ast.unparse(k.value) == 'False')} == {'message': 'message.message'} and not cbs[0].args), props=['C07', 'C01'])
+    reach(sk, "InMemoryBroker.kick/reach")
+    setr = src.func(IREL, 'InmemoryResultBackend.set_result'); res_a = Int('results_addr'); sb = Int('backend_addr'); tid = fresh('task_id'); resv = fresh('result')
+    def h_popitem(ex_, st_, e, r, a, kw, k, K):          # evicts SOME entry (the oldest): afterwards the dict is an arbitrary sub-dict; it happens before the store
+        st_.heap = st_.heap.copy(); st_.heap.dhas = Store(st_.heap.dhas, res_a, Const('has_after_eviction', ArraySort(Val, BoolSort()))); return k(st_, fresh('evicted'))
+    exs = Exec({'len': lambda ex_, st_, e, r, a, kw, k, K: k(st_, PyInt(fresh('len', IntSort()))), 'dict.popitem': h_popitem, 'logger.*': noop}, attr_kinds={'self.results': 'dict'})
+    ss = State(); ss.env = {'self': PyObj(sb), 'task_id': tid, 'result': resv}; ss.heap.fld['results'] = Store(ss.heap.field('results'), sb, Val.ref(res_a)); ss.pc.append(Distinct(sb, res_a))
+    ss.pc.append(Val.is_intv(ss.heap.field('max_stored_results')[sb]))
+    def s_ret(s, v):
+        oblige(s, "InmemoryResultBackend.set_result/post: afterwards results[task_id] IS this result - a later result for the same task id replaces an earlier one  [C07/C11]",
+               And(s.heap.dhas[res_a][tid], s.heap.dval[res_a][tid] == resv), props=['C07', 'C11'])
+        reach(s, "InmemoryResultBackend.set_result/reach@return")
+    exs.run(setr, ss, s_ret, lambda s, x: oblige(s, "InmemoryResultBackend.set_result/raises: nothing  [C07]", BoolVal(False), props=['C07']))
     return {'receiver_call_keywords': sorted(kws)}
